@@ -144,6 +144,25 @@ def deleteIfExists (remove : Except Exc Unit) : Except Exc Unit :=
     else .ok ()
   | .error e => .error e
 
+/-- what leaves `remove_path_on_error` -/
+inductive Raised
+  | body (e : Exc)          -- the exception of the protected block, re-raised (same object)
+  | fromRemove (e : Exc)    -- the remover's own exception replaces it
+  deriving DecidableEq, Repr
+
+/-- remove_path_on_error(path) with the default remover `delete_if_exists` (lines 67-80):
+    `body` = what the protected block raised (an `Exception`; `none` = it completed),
+    `remove` = what `os.unlink(path)` does.  Inside `save_and_reraise_exception` a failing
+    remover lets its own exception out (the original is logged and dropped); otherwise the
+    original is re-raised. -/
+def removePathOnError (body : Option Exc) (remove : Except Exc Unit) : Except Raised Unit :=
+  match body with
+  | none => .ok ()                                                 -- remover not called
+  | some b =>
+    match deleteIfExists remove with
+    | .ok () => .error (.body b)
+    | .error e => .error (.fromRemove e)
+
 /-! ### a one-path file system, for the "already done" clauses (assumed OS behaviour,
     exercised against the real file system by the correspondence) -/
 
